@@ -57,7 +57,10 @@ Judge(e) ==
                    ELSE <<V("a-keepalive-is-sent-at-the-configured-interval", sig, d)>>
         \* stub: failure handling and end of session
         vFail == IF cfg.mode # "stub" \/ ~failed THEN <<>> ELSE
-                 (IF closes = 1 THEN <<>> ELSE <<V("failed-keepalive-closes-the-connection-exactly-once", IF closes = 0 THEN "not-closed" ELSE "closed-twice", d)>>) \o
+                 \* a ping that failed after the session had ended: the loss is known already, the connection need not (and, on a
+                 \* transport that may carry the next session, should not) be closed by the keepalive
+                 (IF closes = 1 \/ (closes = 0 /\ quitAt >= 0 /\ afterQuit >= 1 /\ afterFail = 0) THEN <<>>
+                  ELSE <<V("failed-keepalive-closes-the-connection-exactly-once", IF closes = 0 THEN "not-closed" ELSE "closed-twice", d)>>) \o
                  (IF afterFail = 0 THEN <<>> ELSE <<V("no-keepalive-after-a-failed-one", sig, d)>>) \o
                  (IF exits >= 1 THEN <<>> ELSE <<V("keepalive-goroutine-ends-after-closing", sig, d)>>)
         vNoClose == IF cfg.mode # "stub" \/ failed \/ closes = 0 THEN <<>> ELSE <<V("connection-closed-only-after-a-failed-keepalive", sig, d)>>
